@@ -1587,8 +1587,20 @@ def c20_case(spec, res, batch, tag, dot_texts):
     # to the real text must accept it and see the same graph as the independent Python parser
     batch.add("dotparse", case, "parse text=%s" % text.encode().hex(), graph_canon(g), canon=lean_parse_canon)
     ids = {j: sched_id(objs[j]) for j in range(1, spec["n"]) if sched_id(objs[j])}
-    # nodes <-> atomic jobs
-    node_ids = [nid for nid, _, _ in g.nodes]
+    # nodes <-> atomic jobs. An EMPTY nested scheduler may own one invisible node, named after itself and placed in its
+    # own cluster, for the edges from / to that cluster to hold on to (each atomic job is still exactly one node)
+    empty_scheds = {k for k in spec["sched"] if k != 0 and k in ids and not spec["mem"].get(k)}
+    holders = {}
+    real_nodes = []
+    for nid, cluster, attrs in g.nodes:
+        k = next((k for k in empty_scheds if ids[k] == nid), None)
+        if k is not None and attrs.get("style") == "invis":
+            if k in holders or cluster != "cluster_" + ids[k]:
+                res.violations.append(("the invisible node of an empty nested scheduler is not unique / not inside its own cluster", case))
+            holders[k] = nid
+        else:
+            real_nodes.append((nid, cluster, attrs))
+    node_ids = [nid for nid, _, _ in real_nodes]
     want_nodes = sorted(ids[j] for j in atomic)
     if sorted(node_ids) != want_nodes or len(set(want_nodes)) != len(want_nodes):
         res.violations.append(("nodes are not exactly the atomic jobs with unique ids", case))
@@ -1607,7 +1619,7 @@ def c20_case(spec, res, batch, tag, dot_texts):
     if got_clusters != want_clusters:
         res.violations.append(("clusters are not exactly the nested schedulers, nested as they are", case))
     # node placement
-    for nid, cluster, attrs in g.nodes:
+    for nid, cluster, attrs in real_nodes:
         j = by_id[nid]
         parent = next(s for s in scheds if j in spec["mem"].get(s, []))
         if cluster != (("cluster_" + ids[parent]) if parent != 0 else None):
@@ -1627,20 +1639,24 @@ def c20_case(spec, res, batch, tag, dot_texts):
         return set(subtree_jobs(spec, s))
     for a, b, attrs in g.edges:
         ja, jb = by_id.get(a), by_id.get(b)
-        if ja is None or jb is None or ja not in atomic or jb not in atomic:
-            res.violations.append(("an edge endpoint is not an atomic job node", case))
+        ok_end = lambda j: j is not None and (j in atomic or j in holders)
+        if not ok_end(ja) or not ok_end(jb):
+            res.violations.append(("an edge endpoint is not a node of the document (an atomic job, or the invisible node of an empty nested scheduler)", case))
+            continue
+        if (ja in holders and "ltail" not in attrs) or (jb in holders and "lhead" not in attrs):
+            res.violations.append(("an edge uses the invisible node of an empty scheduler without naming its cluster", case))
             continue
         src = ja
         dst = jb
         if "ltail" in attrs:
             c = by_id.get(attrs["ltail"][len("cluster_"):])
-            if c is None or ja not in inside(c):
+            if c is None or (ja not in inside(c) and ja != c and ja not in subtree_scheds(spec, c)):
                 res.violations.append(("ltail names a cluster that does not contain the tail node", case))
                 continue
             src = c
         if "lhead" in attrs:
             c = by_id.get(attrs["lhead"][len("cluster_"):])
-            if c is None or jb not in inside(c):
+            if c is None or (jb not in inside(c) and jb != c and jb not in subtree_scheds(spec, c)):
                 res.violations.append(("lhead names a cluster that does not contain the head node", case))
                 continue
             dst = c
